@@ -107,6 +107,21 @@ fn pipeline_with(g: &mut Rng, sc: &mut Scenario, ci: usize, n: usize, bad_pos: u
         let mut p = Program::respond(200, token_body(&id, *g.pick(&[0usize, 10, 2000])));
         if delays {
             p.delay = *g.pick(&[0u64, 0, MS, 5 * MS, 100 * MS]);
+            p.delay2 = *g.pick(&[0u64, 0, 0, 50 * MS]);
+        }
+        let made = crate::httpmodel::parse_requests(msgs.last().unwrap());
+        let (has_body, is_head) = made.first().map(|m| (!m.body.is_empty(), m.is_head)).unwrap_or((false, false));
+        if has_body || made.first().map(|m| m.expects_continue).unwrap_or(false) {
+            // asking for the body of an expecting request writes (and flushes) the interim response
+            p.body = match g.below(3) {
+                0 => BodyPlan::None,
+                1 => BodyPlan::Touch(1),
+                _ => BodyPlan::ToEof { buf: 512 },
+            };
+        }
+        if !is_head && g.chance(1, 4) {
+            let lit = literal_response(200, &token_body(&id, 10));
+            p.finish = Finish::Writer { parts: split_parts(&lit, g.usize(2, 3), g), flush: true };
         }
         sc.programs.insert(id, p);
     }
@@ -134,7 +149,7 @@ impl Campaign for C10c {
         "C10"
     }
     fn rule(&self) -> &'static str {
-        "seeded scenarios: a pipeline of 1..4 requests with one mutated into a malformed/unsupported class (short request line, unknown version token, version above 1.1, header without colon, non-ASCII byte, Expect other than 100-continue in any letter case) at every position; earlier requests are answered by handler threads after generated virtual delays so the automatic response has to wait its turn; generated segmentation; non-trivial = the bad request is not the first of its connection or further requests follow it; distinct = interleaving fingerprint"
+        "seeded scenarios: a pipeline of 1..4 requests with one mutated into a malformed/unsupported class (short request line, unknown version token, version above 1.1, header without colon, non-ASCII byte, Expect other than 100-continue in any letter case) at every position; earlier requests are answered by handler threads after generated virtual delays (plain responses, Expect: 100-continue + as_reader whose interim response is flushed, raw writers flushed part-way) so the automatic response has to wait its turn; generated segmentation; non-trivial = the bad request is not the first of its connection or further requests follow it; distinct = interleaving fingerprint"
     }
     fn runs(&self, tier: Tier) -> u64 {
         match tier {
@@ -341,7 +356,7 @@ impl Campaign for C12c {
         "C12"
     }
     fn rule(&self) -> &'static str {
-        "seeded scenarios: pipelines of 1..4 requests, version {1.0,1.1} x one Connection header {absent, close, keep-alive, upgrade, other token, token lists; any letter case} at every position, followed by further valid requests; handlers answer after generated delays and in any order; the client half-closes after its last byte in half of the runs; non-trivial = a connection-ending request is followed by further bytes, or the client half-closes with answers outstanding; distinct = interleaving fingerprint"
+        "seeded scenarios: pipelines of 1..4 requests, version {1.0,1.1} x one Connection header {absent, close, keep-alive, upgrade, other token, token lists; any letter case} at every position, followed by further valid requests; handlers answer after generated delays and in any order; the client half-closes after its last byte in half of the runs; in one run of six the varied request announces a streamed body (Content-Length above the buffering limit, or chunked) that the handler never reads and the client holds back until the response has arrived and, when the request ends the connection, until end-of-stream; one run in five is a mixed-feature conversation; non-trivial = a connection-ending request is followed by further bytes, or the client half-closes with answers outstanding; distinct = interleaving fingerprint"
     }
     fn runs(&self, tier: Tier) -> u64 {
         match tier {
@@ -358,6 +373,10 @@ impl Campaign for C12c {
         let mut g = rng.sub("scenario");
         let n = g.usize(1, 4);
         let special = (index as usize) % n;
+        // one run in six: the special request announces a streamed body which the client holds
+        // back until the server has answered (the handler never reads it) and, when that request
+        // ends the connection, until the server has closed its sending side
+        let withhold = index % 6 == 5;
         let mut msgs = vec![];
         for r in 0..n {
             let id = format!("c0r{}", r);
@@ -373,7 +392,11 @@ impl Campaign for C12c {
                     rq = rq.header(name, conn);
                 }
             }
-            if g.chance(1, 5) {
+            if r == special && withhold {
+                // a streamed body (declared length above the buffering limit, or chunked)
+                let payload = token_body("w", *g.pick(&[1025usize, 3000, 9000]));
+                rq = if g.chance(1, 3) { rq.with_chunked(&payload, &[700, 2000]) } else { rq.with_body(payload) };
+            } else if g.chance(1, 5) {
                 rq = rq.with_body(token_body("b", *g.pick(&[3usize, 1024])));
                 // with_body turned it into POST; keep Connection header position irrelevant
             }
@@ -386,14 +409,41 @@ impl Campaign for C12c {
             sc.programs.insert(id, p);
         }
         let seg = seg_of(&mut g);
-        let mut c = ConnScript { steps: segment(&msgs, seg, *g.pick(&[0u64, MS]), &mut g), ..Default::default() };
+        let pause = *g.pick(&[0u64, MS]);
+        let mut c = ConnScript::default();
+        // withholding is only meaningful when every earlier message is an ordinary persistent
+        // request (otherwise the special one is never reached and nothing is due for it)
+        let model = crate::httpmodel::parse_requests(&msgs.concat());
+        let reached = model.len() > special && model[..special].iter().all(|m| m.class == crate::httpmodel::Class::Valid && !m.last);
+        if withhold && reached {
+            let m = &model[special];
+            let head_len = m.head_end - m.start;
+            let sp = &msgs[special];
+            let upto = head_len + if g.chance(1, 2) { 0 } else { g.usize(0, (sp.len() - head_len).saturating_sub(1)) };
+            let mut first: Vec<Vec<u8>> = msgs[..special].to_vec();
+            first.push(sp[..upto].to_vec());
+            c.steps = segment(&first, seg, pause, &mut g);
+            c.steps.push(ClientStep::AwaitAfterFinals(special));
+            if m.last {
+                c.steps.push(ClientStep::AwaitEof);
+            }
+            if !m.last || g.chance(1, 2) {
+                let mut rest: Vec<Vec<u8>> = vec![sp[upto..].to_vec()];
+                rest.extend(msgs[special + 1..].iter().cloned());
+                c.steps.extend(segment(&rest, seg, pause, &mut g));
+            }
+            let p = sc.programs.get_mut(&format!("c0r{}", special)).unwrap();
+            p.body = BodyPlan::None;
+        } else {
+            c.steps = segment(&msgs, seg, pause, &mut g);
+        }
         c.coalesce = g.chance(1, 2);
         if g.chance(1, 2) {
             c.steps.push(ClientStep::HalfClose);
         }
         sc.conns.push(c);
         sc.receivers = loop_receivers(g.usize(1, 2), if g.chance(3, 4) { Dispatch::Spawn } else { Dispatch::Inline });
-        sc.note = format!("C12 index {} n={}", index, n);
+        sc.note = format!("C12 index {} n={}{}", index, n, if withhold && reached { " withheld" } else { "" });
         sc
     }
     fn check(&self, sc: &Scenario, out: &RunOut) -> Verdict {
